@@ -1,11 +1,11 @@
 #!/bin/sh
-# tools/verify_seed.sh <seed-dir>   : confirm a seeded change in the scratch worktree /tmp/wt/verify (outside /repo and /verif)
+# tools/verify_seed.sh <seed-dir>   : confirm a seeded change in the scratch worktree $SEED_WT (default /tmp/wt/verify; outside /repo and /verif)
 # prints: apply ok / tests N passed / demo with patch exit / demo without patch exit
-D=$(cd "$1" && pwd); W=/tmp/wt/verify
+D=$(cd "$1" && pwd); W=${SEED_WT:-/tmp/wt/verify}
 cd $W && git checkout -q -- . && git apply "$D/patch.diff" || { echo "APPLY FAILED"; exit 2; }
 T=$(PYTHONPATH=$W /venv/bin/python -m pytest -q -p no:cacheprovider --timeout=900 --continue-on-collection-errors 2>&1 | tail -1)
-PYTHONPATH=$W timeout 120 /venv/bin/python "$D/demo.py" > /tmp/wt/verify_demo_with.txt 2>&1; WITH=$?
+PYTHONPATH=$W timeout 120 /venv/bin/python "$D/demo.py" > $W.demo_with.txt 2>&1; WITH=$?
 git checkout -q -- .
-PYTHONPATH=$W timeout 120 /venv/bin/python "$D/demo.py" > /tmp/wt/verify_demo_without.txt 2>&1; WITHOUT=$?
+PYTHONPATH=$W timeout 120 /venv/bin/python "$D/demo.py" > $W.demo_without.txt 2>&1; WITHOUT=$?
 echo "tests: $T | demo with patch: exit $WITH | demo without patch: exit $WITHOUT"
-tail -3 /tmp/wt/verify_demo_with.txt | cut -c1-300
+tail -3 $W.demo_with.txt | cut -c1-300
